@@ -220,8 +220,19 @@ def SL.linkLevels (newId : NodeId) (update : Nat → NodeId) : Nat → Nat → S
     let s2 ← s1.setFwdAt (update level) level (some newId)
     SL.linkLevels newId update cnt (level + 1) s2
 
-/-- `skiplist_put`; `rnd` = the level `skiplist_level_generate` draws from the interposed
-    `random()` (capped at SKIPLIST_LEVEL_MAX) -/
+/-- the insertion half of `skiplist_put` (after the search loop has filled `update`); `rnd` =
+    the level `skiplist_level_generate` draws from the interposed `random()` (capped at
+    SKIPLIST_LEVEL_MAX) -/
+def SL.putNew (s : SL) (update : Nat → NodeId) (key : Key) (v : Val) (rnd : Nat) : M (SL × List Event) := do
+  let newLevel := min rnd LEVEL_MAX
+  let update := if newLevel + 1 > s.lv then raiseUpdate s.header update s.lv (newLevel + 1) else update
+  let s1 := if newLevel + 1 > s.lv then { s with lv := newLevel + 1 } else s
+  let (s2, newId) := s1.nodeNew (newLevel + 1) (some key) v
+  let evs ← s2.notify newId EV_INSERTED key 0 v
+  let s3 ← SL.linkLevels newId update (newLevel + 1) 0 s2
+  .ok ({ s3 with length := s3.length + 1 }, evs)
+
+/-- `skiplist_put` -/
 def SL.put (s : SL) (key : Key) (v : Val) (rnd : Nat) : M (SL × List Event) := do
   match ← s.search key true s.fuel s.header s.lv (fun _ => s.header) with
   | .inl f =>
@@ -230,14 +241,7 @@ def SL.put (s : SL) (key : Key) (v : Val) (rnd : Nat) : M (SL × List Event) := 
     let s1 := s.setNode f { n with key := some key, val := v }
     let evs ← s1.notify f EV_REPLACED (n.key.getD []) n.val v
     .ok (s1, evs)
-  | .inr (_, update) =>
-    let newLevel := min rnd LEVEL_MAX
-    let update := if newLevel + 1 > s.lv then raiseUpdate s.header update s.lv (newLevel + 1) else update
-    let s1 := if newLevel + 1 > s.lv then { s with lv := newLevel + 1 } else s
-    let (s2, newId) := s1.nodeNew (newLevel + 1) (some key) v
-    let evs ← s2.notify newId EV_INSERTED key 0 v
-    let s3 ← SL.linkLevels newId update (newLevel + 1) 0 s2
-    .ok ({ s3 with length := s3.length + 1 }, evs)
+  | .inr (_, update) => s.putNew update key v rnd
 
 /-- "Splice found_node out of list": for level = `level` … : `if (update[level]->forward[level] ==
     found_node) update[level]->forward[level] = found_node->forward[level]` -/
